@@ -3,13 +3,30 @@
 ALL = ["quick", "thorough"]
 
 PROPS = {
+    "C08": dict(
+        level="exploration",
+        runs=[
+            dict(name="rel", flavour="rel", shards=16, timeout=900, timeout_thorough=5400),
+            dict(name="dbg", flavour="dbg", shards=16, timeout=900, timeout_thorough=5400, args=["--scale", "0.25", "--mode", "random"]),
+        ],
+        rule=("cases = (operation, backend, input radix, output radix, input/output limb counts, signed bit offset, value class, column layout); each call "
+              "carries N independent coefficient cases. Part 1 (seed independent): exhaustive small scope - every digit vector over [-2^b, 2^b] (out-of-range "
+              "digits included) for radices <= 3 (quick) / <= 4 (thorough), sizes <= 3, every offset in -(a_bits+2b)..=(a_bits+2b), all 16 operations, same and cross radix. "
+              "Part 2: random radix pairs 1..=62, sizes 1..6, offsets incl. limb multiples +-1, ten value classes (carry ripple, extremes, headroom up to 2^62 / 2^100). "
+              "Part 3: integer encode/decode for every (b,k), 2<=b<=62, sizes 1..4 (grid) plus random. Non-trivial = value class is not all-zero; distinct = hash of the tuple"),
+        min_evaluations=dict(quick=1000000, thorough=30000000),
+        min_counters=dict(quick={"small_scope_complete": 64, "encode_grid_complete": 16}, thorough={"small_scope_complete": 64, "encode_grid_complete": 16}),
+        assumptions=["un-normalised inputs bounded by 2^62 (i64 limbs) and 2^100 (i128 accumulator limbs): the library documents no headroom figure, these values are what the kernels provably handle without i64/i128 overflow",
+                     "tolerance is exactly the one unit of the output's last limb stated by the property; exactness is demanded whenever res_bits >= a_bits - offset",
+                     "release and debug-assertions/overflow-checks builds"],
+    ),
     "C09": dict(
         level="exploration",
         runs=[dict(name="rel", flavour="rel", shards=16, timeout=900, timeout_thorough=3600)],
         rule=("cases = (operation, backend, N, rotation/Galois parameter, operand/result limb counts, column counts and selected columns); "
               "the grid part enumerates every k in [-4N,4N] and every odd g mod 2N (both signs) for N in {1..64} independent of the seed, the rest "
               "is drawn from VERIF_SEED; a case is non-trivial when N >= 2; distinct = distinct hashes of that tuple"),
-        min_evaluations=dict(quick=40000, thorough=1000000),
+        min_evaluations=dict(quick=1000000, thorough=30000000),
         min_counters=dict(quick={"exhaustive_k_and_g_for_n_le_64": 16}, thorough={"exhaustive_k_and_g_for_n_le_64": 16}),
         exhaustive_counter="exhaustive_k_and_g_for_n_le_64",
         exhaustive_note="every rotation k in [-4N,4N] and every odd Galois element mod 2N for N in {1,2,4,8,16,32,64}, all four backends",
